@@ -46,4 +46,10 @@ CHECKS = {
   'note': COMMON_NOTE + 'Same oracle inputs as C07. Tag, context string, level name and file name are written raw by the code (and by the model); the generator keeps them free of control bytes - the property speaks about field keys and values.',
   'technique': 'Coq proof (text encoder refined to a declarative line spec; token equality with the proved JSON printer) + differential correspondence',
  },
+ 'C17': {
+  'text': 'Partial. Proved on a reference implementation of Expr.g4 (not of the ANTLR runtime): c17_parser_complete - the recursive-descent parser accepts every token sequence the grammar derives (inductive derivations, nesting unbounded, optional trailing comma, dotted/indexed paths) and returns exactly the derived tree; c17_lexer_progress / c17_lexer_fuel_irrelevant - the reference lexer is total and fuel-independent; c17_later_assignment_wins / c17_map_keys_unique - the flattened result is a map in which the last assignment to a key wins. Not proved: a general theorem that lexing an arbitrary spacing of a token sequence returns that sequence (the maximal-munch / tie-breaking cases are covered by vm_compute examples and by the correspondence). '
+          'Totality of the real ANTLR-generated parser is explored, not proved: mutated expressions, token soups, random bytes up to 64 KiB, deep nesting; any panic, timeout or (map and error) is a violation by itself. Correspondence: returned map / nil / error class vs the reference.',
+  'note': COMMON_NOTE + 'The ANTLR 4 Go runtime and the generated lexer/parser are replaced in the model by the reference implementation; []rune conversion modelled by the UTF-8 sanitiser; strings.TrimSpace modelled with the Unicode White_Space table. Genuine defect found and fixed: quadratic error accumulation made Parse effectively non-terminating on malformed inputs of a few KiB (fix 07d24ad).',
+  'technique': 'Coq proof (parser completeness w.r.t. inductive grammar derivations by mutual induction; lexer progress) + differential correspondence vs the ANTLR parser + totality exploration',
+ },
 }
